@@ -10,7 +10,7 @@
 (* observes.  One observation = one client step:                          *)
 (*                                                                         *)
 (*   t.op      "Update" | "Get" | "OpenPull" | "CloseStream" | "Other"      *)
-(*             | "TimedUpdate" | "Wait"                                     *)
+(*             | "TimedUpdate" | "Wait" | "Nudge"                           *)
 (*   t.pre     unmasked Get immediately before the step [ok, v]           *)
 (*   t.post    unmasked Get immediately after the step  [ok, v]           *)
 (*   t.code    status of the step's RPC ("OK", an error code, "PANIC")    *)
@@ -97,7 +97,13 @@ UpdateFails(t) ==
           THEN If(t.post.ok /\ t.post.v = t.resp, "update-response-is-not-next-get")
                \cup UNION { StreamFailsOnUpdate(t, t.streams[j]) : j \in 1..Len(t.streams) }
           \* rejected with any error status (a crash is not a status, but Get must not move either)
-          ELSE If(~t.pre.ok \/ (t.post.ok /\ t.post.v = t.pre.v), "rejected-update-changed-get"))
+          ELSE If(~t.pre.ok \/ (t.post.ok /\ t.post.v = t.pre.v), "rejected-update-changed-get")
+               \* ... and a rejected Update is not an Update that appears on the streams: whatever the harness
+               \* could read from an open stream shortly after the error (it does not wait for long, so this can
+               \* only under-report) must end on the unchanged value seen through the stream's mask
+               \cup UNION { LET s == t.streams[j] IN
+                             If(~t.pre.ok \/ s.msgs = <<>> \/ s.msgs[Len(s.msgs)].v = Project(t.pre.v, s.mask, s.psub),
+                                "rejected-update-appeared-on-stream") : j \in 1..Len(t.streams) })
 
 (***************************************************************************)
 (* Get with a read mask.  Not asserted when the unmasked Get itself fails. *)
@@ -155,8 +161,21 @@ WaitFails(t) ==
                      If(~t.pre.ok \/ s.msgs = <<>> \/ s.msgs[Len(s.msgs)].v = Project(t.pre.v, s.mask, s.psub),
                         "stream-change-without-update") : j \in 1..Len(t.streams) }
 
+(***************************************************************************)
+(* "Nudge": an Update that writes the current value with one number moved  *)
+(* by less than any tolerance a model may be configured with (0.004).      *)
+(* Whether such a change is due on the streams is exactly what the         *)
+(* tolerance decides, so nothing is asserted about the streams; but a      *)
+(* successful Update's response is the next Get however small the change.  *)
+(***************************************************************************)
+NudgeFails(t) ==
+  If(t.code # "PANIC", "panic")
+  \cup (IF t.code = "OK" THEN If(t.post.ok /\ t.post.v = t.resp, "update-response-is-not-next-get")
+        ELSE If(~t.pre.ok \/ (t.post.ok /\ t.post.v = t.pre.v), "rejected-update-changed-get"))
+
 Fails(t) ==
   CASE t.op = "Update"      -> UpdateFails(t)
+    [] t.op = "Nudge"       -> NudgeFails(t)
     [] t.op = "TimedUpdate" -> TimedFails(t)
     [] t.op = "Wait"        -> WaitFails(t)
     [] t.op = "Get"         -> GetFails(t)
